@@ -372,7 +372,11 @@ def ob_sweeps(ctx, res):
         return
     z_stmts, z_inc, z_fl = _sweep_region(fl_[0]["body"], pz)
     if None in (s_inc, s_fl, z_inc, z_fl):
-        res.fail("sweep/shape", pv, "sweep regions not recognised (increment loop / flush loop): summary %s/%s zoom %s/%s" % (s_inc, s_fl, z_inc, z_fl))
+        ev0 = bed_sweep_eval(ctx)
+        if ev0 is not None and ev0[0] == "bad":
+            res.fail("sweep/summary-eval", pv, "bigBed summary sweep: " + ev0[1])
+            return
+        res.undecided("sweep/shape", pv, "sweep regions not recognised (increment loop / flush loop): summary %s/%s zoom %s/%s" % (s_inc, s_fl, z_inc, z_fl))
         return
     # (a) depth-increment loops: each sweep's loop is checked on its own, in normal form (comparisons oriented, pure temporaries inlined);
     #     that the two are spelled alike is only recorded
